@@ -1,7 +1,8 @@
 /-
 Model of pydoctor/epydoc/markup/_pyval_repr.py (the expression colourizer):
 
-* `_OperatorDelimiter` (parenthesis decision from the parent's precedence, the `+1` rules),
+* `_OperatorDelimiter` (parenthesis decision from the parent's precedence, the `+1` rules: under
+  `**`, under `and`/`or`, and for the right operand of any other binary operator),
 * `PyvalColorizer._colorize_ast*` for constants, unary / binary / boolean operators, tuples,
   lists, sets, dicts, names, dotted names, subscripts, calls, starred, keywords,
 * what is handed to `astor.to_source` (`_colorize_ast_generic`): comparison chains and conditional
@@ -93,6 +94,8 @@ structure PrecTable where
   comma : Nat
   powRHS : Nat
   highest : Nat
+  /-- `sys.float_info.max_10_exp + 1`: the exponent in `_INFSTR` (`"1e309"`) -/
+  infExp : Nat
 
 /-! ## expressions -/
 
@@ -220,9 +223,16 @@ def strEscapeChar (c : Char) : List Char :=
   else if c = Char.ofNat 12 then ['\\', 'f']
   else if c = Char.ofNat 11 then ['\\', 'v']
   else if c = '\\' then ['\\', '\\']
+  else if c = Char.ofNat 0 then ['\\', 'x', '0', '0']
   else [c]
 
 def strEscape (s : List Char) : List Char := s.flatMap strEscapeChar
+
+/-- `_str_escape` before e938da2 (a NUL went through unescaped and was dropped by docutils) -/
+def strEscapeCharOld (c : Char) : List Char :=
+  if c = Char.ofNat 0 then [c] else strEscapeChar c
+
+def strEscapeOld (s : List Char) : List Char := s.flatMap strEscapeCharOld
 
 def hexDigit (n : Nat) : Char :=
   if n < 10 then Char.ofNat (48 + n) else Char.ofNat (87 + n)
@@ -238,7 +248,24 @@ def bytesEscapeByte (quote c : Nat) : List Char :=
   else if c < 32 || c ≥ 127 then ['\\', 'x', hexDigit (c / 16 % 16), hexDigit (c % 16)]
   else [Char.ofNat c]
 
-def bytesEscape (b : List Nat) : List Char := b.flatMap (bytesEscapeByte (bytesQuote b))
+/-- `_bytes_escape` before 257fc5a: `repr(b)[2:-1]` -/
+def bytesEscapeOld (b : List Nat) : List Char := b.flatMap (bytesEscapeByte (bytesQuote b))
+
+/-- `body.replace("'", "\\'")` -/
+def escapeQuotes (s : List Char) : List Char :=
+  s.flatMap fun c => if c = '\'' then ['\\', '\''] else [c]
+
+/-- `_bytes_escape`: `repr(b)[2:-1]`, and when repr picked double quotes (`r[1] == '"'`) every single
+quote is escaped, because the colourizer always writes single quotes -/
+def bytesEscape (b : List Nat) : List Char :=
+  let body := b.flatMap (bytesEscapeByte (bytesQuote b))
+  if bytesQuote b = 34 then escapeQuotes body else body
+
+/-- `str(pyval).replace('inf', _INFSTR)` with `_INFSTR = "1e" + repr(max_10_exp + 1)` -/
+def replaceInf (infExp : Nat) : List Char → List Char
+  | 'i' :: 'n' :: 'f' :: rest => ['1', 'e'] ++ Nat.toDigits 10 infExp ++ replaceInf infExp rest
+  | c :: rest => c :: replaceInf infExp rest
+  | [] => []
 
 /-- `s.split('\n')` -/
 def splitOnNat (sep : Nat) : List Nat → List (List Nat)
@@ -510,6 +537,11 @@ def CName.text : CName → List Char
 /-- `sys.int_info.default_max_str_digits` -/
 def maxStrDigits : Nat := 4300
 
+/-- `try: str(pyval) except ValueError: hex(pyval)`: `str()` refuses more than 4300 digits -/
+def intText (n : Nat) : List Char :=
+  if (Nat.toDigits 10 n).length > maxStrDigits then '0' :: 'x' :: Nat.toDigits 16 n
+  else Nat.toDigits 10 n
+
 /-- `zip(keys, values)` of `_colorize_ast_dict`; `kp`/`vpComma`/`vpHigh` are the compiled keys, the
 values compiled under `Precedence.Comma` (set when the key is present) and under the default. -/
 def dictItems : List Expr → List Prog → List Prog → List Prog → List Prog
@@ -524,10 +556,8 @@ mutual
 def compile (T : PrecTable) (pp : Option Nat) : Expr → Prog
   | .name s => .out s .link
   | .dotted parts => .out (joinDots parts) .link
-  | .constInt n =>
-    let d := Nat.toDigits 10 n
-    if d.length > maxStrDigits then .fail .valueError else .out d .plain
-  | .constNum t => .out t .plain
+  | .constInt n => .out (intText n) .plain
+  | .constNum t => .out (replaceInf T.infExp t) .plain
   | .constStr s => strProg s
   | .constBytes b => bytesProg b
   | .constName k => .out k.text .link
@@ -537,9 +567,10 @@ def compile (T : PrecTable) (pp : Option Nat) : Expr → Prog
     parenIf (needParen pp (T.unary op))
       (.seq [.out op.sym .plain, compile T (some (T.unary op)) x])
   | .binary op l r =>
-    let q := T.bin op + (if op = .pow then 1 else 0)
+    -- parent precedence: +1 under `**`; +1 for the right operand of every other binary operator
     parenIf (needParen pp (T.bin op))
-      (.seq [compile T (some q) l, .out op.sym .plain, compile T (some q) r])
+      (.seq [compile T (some (T.bin op + (if op = .pow then 1 else 0))) l, .out op.sym .plain,
+             compile T (some (T.bin op + 1)) r])
   | .boolop op xs =>
     parenIf (needParen pp (T.bool op))
       (.seq (boolBody op.sym (compileList T (some (T.bool op + 1)) xs)))
